@@ -41,7 +41,7 @@ fn budgets(prop: &str, tier: &str) -> u64 {
         _ => 10000,
     };
     if tier == "thorough" {
-        quick * 12
+        quick * 6
     } else {
         quick
     }
